@@ -73,13 +73,19 @@ def ops_from_trace(path):
 def engine_contract_violations(path):
     """Per-run discharge of the engine contract `engine_unsat` used by c04_history: when a check is answered unsat by
     solving with conflict frame k, the final conflict clause (`f` event: activation literals of the frames the refutation
-    used) may only mention frames of index <= k.  Returns a list of (check index, k, offending frame index)."""
+    used) may only mention frames of index <= k; and when the refutation used no activation literal at all (no `f` event
+    during that solve: the conflict was found at decision level 0), the reported conflict frame must be the base frame —
+    flags of lower frames that stay unset would let a later pop "restore" a solver whose base level is refuted.
+    Returns a list of (check index, k, offending frame index or -2)."""
     import re
     bad, last_f, inst, k = [], None, None, 0
     for line in open(path, errors="replace"):
         m = re.match(r"\(f (\S+) \(([-0-9 ]*)\)\)", line)
         if m:
             last_f = [int(x) for x in m.group(2).split()]
+            continue
+        if line.startswith("(a "):
+            last_f = None
             continue
         if line.startswith("(ms "):
             m = re.match(r"\(ms (\S+) (\w+) ", line)
@@ -98,6 +104,8 @@ def engine_contract_violations(path):
                             idx = [abs(x) for x in lits].index(abs(l)) + 1
                             if idx > int(cf.group(1)):
                                 bad.append((k, int(cf.group(1)), idx))
+                elif cf and last_f is None and int(cf.group(1)) != 0:
+                    bad.append((k, int(cf.group(1)), -2))
                 last_f = None
     return bad
 
@@ -181,6 +189,8 @@ def one(args):
     # the same script without get-* queries
     st = strip_queries(text)
     rc3, out3, err3 = vlib.run_opensmt(st, timeout=20) if st != text else (rc, None, None)
+    if rc3 not in (0, 1):
+        out3 = None      # crashed / timed out / not started: not comparable
     return text, meta, rc, out, ops, states, ans, fresh, out3, contract, tev
 
 
@@ -234,7 +244,8 @@ def run(ctx):
             if cfr == -1:
                 ctx.tie_broken("frame-guard-discipline", str(idx), dict(script=text))
                 continue
-            ctx.tie_broken("engine-contract:conflict-frame", "check %d: reported conflict frame %d but the final conflict uses the activation literal of frame %d" % (kk, cfr, idx),
+            ctx.tie_broken("engine-contract:conflict-frame", ("check %d: reported conflict frame %d but the final conflict uses the activation literal of frame %d" % (kk, cfr, idx)) if idx != -2 else
+                           ("check %d: the refutation used no activation literal (level-0 conflict) but the reported conflict frame is %d, not the base frame" % (kk, cfr)),
                            dict(script=text))
         mstates = [x for x in ml.split(";") if x]
         nchecks = sum(1 for o in ops if o.startswith("check"))
